@@ -321,6 +321,51 @@ fn gen_task_host_program(rng: &mut Rng) -> (String, Expect, &'static str) {
     (s, Expect { out: Some(String::new()), value: Some(format!("int:{total}")), error: None, host_calls: Some(calls) }, "host:from-task")
 }
 
+/// main fails (each kind) or completes while ANOTHER task — one that prints in a loop for ever — has a host call
+/// pending at the end of the call: the main thread's error / completion must win over the task's pending call,
+/// in that call and in every later one
+fn gen_pending_task_program(rng: &mut Rng) -> (String, Expect, &'static str) {
+    let mut s = String::from(PC_PRELUDE);
+    let per_tick = rng.range(0, 6);
+    s.push_str(&format!("task {{\n  var i = 0\n  while true {{\n    println(\"tick \" .. i)\n    spin({per_tick})\n    i = i + 1\n  }}\n}}\n"));
+    if rng.chance(1, 3) {
+        s.push_str("task {\n  var j = 0\n  while true {\n    print(\"t\")\n    j = j + 1\n  }\n}\n");
+    }
+    let work = rng.range(0, 60);
+    s.push_str(&format!("spin({work})\n"));
+    let v = rng.range(-5, 50);
+    let mut exp = Expect { out: None, value: None, error: None, host_calls: None };
+    let class;
+    match rng.below(5) {
+        0 => {
+            class = "pending-task:main-divzero";
+            s.push_str(&format!("let z = {v} - {v}\nlet q = 10 / z\nq\n"));
+            exp.error = Some("divzero");
+        }
+        1 => {
+            class = "pending-task:main-oob";
+            s.push_str("let arr = [1, 2, 3]\nlet q = arr[3]\nq\n");
+            exp.error = Some("oob");
+        }
+        2 => {
+            class = "pending-task:main-panic";
+            s.push_str("panic(\"stop here\")\n0\n");
+            exp.error = Some("panic");
+        }
+        3 => {
+            class = "pending-task:main-overflow";
+            s.push_str(&format!("let big = 9223372036854775807\nlet q = big + {}\nq\n", v.abs() + 1));
+            exp.error = Some("overflow");
+        }
+        _ => {
+            class = "pending-task:main-completes";
+            s.push_str(&format!("{v} * 2 + 1\n"));
+            exp.value = Some(format!("int:{}", v * 2 + 1));
+        }
+    }
+    (s, exp, class)
+}
+
 fn random_schedule(rng: &mut Rng) -> Schedule {
     match rng.below(6) {
         0 => Schedule::constant(1),
@@ -371,7 +416,14 @@ fn main() {
     ));
     ctx.count(if arity0_ok { "probe:D44-fixed" } else { "probe:D44-open" });
     let mut jobs: Vec<Job> = vec![];
-    for i in 0..(3 * n + n / 2) {
+    for i in 0..(3 * n + n / 2 + n) {
+        if i >= 3 * n + n / 2 {
+            let (src, expect, class) = gen_pending_task_program(&mut ctx.rng);
+            // budgets > 1: after main's failing / last step the task reaches its next host call in the same slice
+            let b = *ctx.rng.pick(&[2u32, 3, 7, 100, 1_000_000]);
+            jobs.push(Job { src, class, sched: Schedule::constant(b), expect, model_host: None });
+            continue;
+        }
         let (src, expect, class, model_host) = match i % 7 {
             0 | 1 | 2 => gen_host_program(&mut ctx.rng, arity0_ok),
             3 | 4 => {
@@ -391,9 +443,15 @@ fn main() {
         let sched = random_schedule(&mut ctx.rng);
         jobs.push(Job { src, class, sched, expect, model_host });
     }
+    // every run: at most MAX_CALLS calls (a runtime that never reports the error must not hang the check) and,
+    // once completion or failure was reported, two more calls without servicing anything
+    const MAX_CALLS: usize = 20_000;
     let results = par_map(&jobs, |j| {
         let mut h = host_fn();
-        run_traced(&j.src, &j.sched, 300_000, &mut h)
+        match compile_program(&j.src) {
+            Ok(mk) => run_traced_after(&mk, &j.sched, 300_000, &mut h, &[3, 500], MAX_CALLS),
+            Err(_) => run_traced(&j.src, &j.sched, 300_000, &mut h),
+        }
     });
     let names = host_names();
     for (j, t) in jobs.iter().zip(results) {
@@ -414,15 +472,16 @@ fn main() {
             }
             _ => {}
         }
+        let mut pf: Vec<String> = vec![];
         // ---- the property, call by call
         let mut main_stopped = false;
         for (ci, c) in t.calls.iter().enumerate() {
             let ex = executed(c);
             if c.steps > c.call.budget {
-                ctx.spec_fail(format!("call {ci}: steps_consumed {} > budget {} :: {} :: {}", c.steps, c.call.budget, j.sched.describe(), prog()));
+                pf.push(format!("call {ci}: steps_consumed {} > budget {} :: {} :: {}", c.steps, c.call.budget, j.sched.describe(), prog()));
             }
             if c.steps != ex {
-                ctx.spec_fail(format!("call {ci}: steps_consumed {} but {} instructions executed :: {} :: {}", c.steps, ex, j.sched.describe(), prog()));
+                pf.push(format!("call {ci}: steps_consumed {} but {} instructions executed :: {} :: {}", c.steps, ex, j.sched.describe(), prog()));
             }
             let stop_pos = c.events.iter().position(|e| matches!(e, Event::Step { thread, kind: StepKind::Stop } if *thread == t.main_id));
             let n_steps_events = c.events.len();
@@ -431,28 +490,37 @@ fn main() {
                 (true, Some(p)) => {
                     // the call returns at once: nothing is executed after main's Stop
                     if c.events[p + 1..].iter().any(|e| matches!(e, Event::Step { .. })) {
-                        ctx.spec_fail(format!("call {ci}: instructions executed after main's Stop :: {}", prog()));
+                        pf.push(format!("call {ci}: instructions executed after main's Stop :: {}", prog()));
                     }
                     main_stopped = true;
                     ctx.count("done:at-main-stop");
                     let _ = n_steps_events;
                 }
-                (true, None) => ctx.spec_fail(format!("call {ci}: Done reported but main did not execute Stop in this call :: {} :: {}", j.sched.describe(), prog())),
-                (false, Some(_)) => ctx.spec_fail(format!("call {ci}: main executed Stop but status is {} :: {} :: {}", c.status, j.sched.describe(), prog())),
+                (true, None) => pf.push(format!("call {ci}: Done reported but main did not execute Stop in this call :: {} :: {}", j.sched.describe(), prog())),
+                (false, Some(_)) => pf.push(format!("call {ci}: main executed Stop but status is {} :: {} :: {}", c.status, j.sched.describe(), prog())),
                 (false, None) => {}
             }
             if c.status == "pending" {
                 let main_pending = c.queue.iter().any(|(id, f)| *id == t.main_id && f.starts_with('p'));
                 ctx.count(if main_pending { "pending:main" } else { "pending:task-only" });
                 if !c.queue.iter().any(|(_, f)| f.starts_with('p')) {
-                    ctx.spec_fail(format!("call {ci}: PendingHostFunc reported but no thread is pending :: {}", prog()));
+                    pf.push(format!("call {ci}: PendingHostFunc reported but no thread is pending :: {}", prog()));
                 }
             }
             if c.status == "out" && c.queue.iter().any(|(_, f)| f.starts_with('p')) {
-                ctx.spec_fail(format!("call {ci}: a thread waits for the host but the status is OutOfSteps :: {}", prog()));
+                pf.push(format!("call {ci}: a thread waits for the host but the status is OutOfSteps :: {}", prog()));
             }
             if c.status.starts_with("err:") && !c.queue.iter().any(|(id, f)| *id == t.main_id && f == "e") {
-                ctx.spec_fail(format!("call {ci}: MainThreadError reported but the main thread has no error :: {}", prog()));
+                pf.push(format!("call {ci}: MainThreadError reported but the main thread has no error :: {}", prog()));
+            }
+            if c.queue.iter().any(|(id, f)| *id == t.main_id && f == "e") && !c.status.starts_with("err:") {
+                pf.push(format!(
+                    "call {ci}: the main thread has failed but the call reports `{}` (run queue: {:?}) :: {} :: {}",
+                    c.status, c.queue.iter().map(|(_, f)| f.as_str()).collect::<Vec<_>>(), j.sched.describe(), prog()
+                ));
+            }
+            if c.status.starts_with("err:") && c.queue.iter().any(|(id, f)| *id != t.main_id && f.starts_with('p')) {
+                ctx.count("main-error:while-task-pending");
             }
             if c.queue.iter().any(|(id, f)| *id != t.main_id && f == "e") {
                 ctx.count("task-failed-in-queue");
@@ -464,52 +532,86 @@ fn main() {
                 ctx.count("call:budget0");
             }
         }
+        // calls made after completion / failure was reported, nothing serviced in between
+        if let Some(last) = t.calls.last() {
+            for (k, a) in t.after_calls.iter().enumerate() {
+                if a.status != last.status {
+                    pf.push(format!(
+                        "the run reported `{}`, a further run_n_steps({}) without servicing reports `{}` (run queue: {:?}) :: {} :: {}",
+                        last.status, a.call.budget, a.status, a.queue.iter().map(|(_, f)| f.as_str()).collect::<Vec<_>>(), j.sched.describe(), prog()
+                    ));
+                }
+                if a.steps > a.call.budget || a.steps != executed(a) {
+                    pf.push(format!("after-call {k}: steps_consumed {} budget {} executed {} :: {}", a.steps, a.call.budget, executed(a), prog()));
+                }
+                if a.events.iter().any(|e| matches!(e, Event::Step { thread, .. } if *thread == t.main_id)) {
+                    pf.push(format!("after-call {k}: the finished/failed main thread executed an instruction :: {}", prog()));
+                }
+                if a.queue.iter().any(|(id, f)| *id != t.main_id && f.starts_with('p')) {
+                    ctx.count(&format!("after:{}-with-task-pending", if last.status == "done" { "done" } else { "error" }));
+                }
+            }
+        }
+        if t.call_bound_hit {
+            pf.push(format!(
+                "after {MAX_CALLS} run_n_steps calls the runtime has reported neither completion nor failure (last status `{}`) :: {} :: {}",
+                t.calls.last().map(|c| c.status.as_str()).unwrap_or("?"), j.sched.describe(), prog()
+            ));
+        }
         if matches!(t.outcome, Outcome::Done) != main_stopped {
-            ctx.spec_fail(format!("completion and main's Stop disagree: outcome {:?} :: {}", t.outcome, prog()));
+            pf.push(format!("completion and main's Stop disagree: outcome {:?} :: {}", t.outcome, prog()));
         }
         // ---- expectations derived from the program text
         if let Some(k) = j.expect.error {
             match &t.outcome {
                 Outcome::Error(got) if got == k => ctx.count("main-error:reported"),
-                Outcome::Timeout => ctx.count("timeout"),
-                o => ctx.spec_fail(format!("main must fail with {k}, runtime reported {:?} :: {} :: {}", o, j.sched.describe(), prog())),
+                Outcome::Timeout if !j.class.starts_with("pending-task") => ctx.count("timeout"),
+                o => pf.push(format!("main must fail with {k}, runtime reported {:?} (last status `{}`) :: {} :: {}", o, t.calls.last().map(|c| c.status.as_str()).unwrap_or("?"), j.sched.describe(), prog())),
             }
         } else if j.class != "single" {
             match &t.outcome {
                 Outcome::Done => {}
-                Outcome::Timeout => ctx.count("timeout"),
-                o => ctx.spec_fail(format!("main must complete, runtime reported {:?} ({}) :: {} :: {}", o, t.err_text.replace('\n', " | "), j.sched.describe(), prog())),
+                Outcome::Timeout if !j.class.starts_with("pending-task") => ctx.count("timeout"),
+                o => pf.push(format!("main must complete, runtime reported {:?} ({}) :: {} :: {}", o, t.err_text.replace('\n', " | "), j.sched.describe(), prog())),
             }
         }
         if matches!(t.outcome, Outcome::Done) {
             if let Some(v) = &j.expect.value {
                 if *v != t.value {
-                    ctx.spec_fail(format!("final value {} but the last expression evaluates to {v} :: {} :: {}", t.value, j.sched.describe(), prog()));
+                    pf.push(format!("final value {} but the last expression evaluates to {v} :: {} :: {}", t.value, j.sched.describe(), prog()));
                 }
                 ctx.count("value:checked");
             }
             if let Some(o) = &j.expect.out {
                 if *o != t.out {
-                    ctx.spec_fail(format!("output {:?}, expected {:?} :: {} :: {}", t.out, o, j.sched.describe(), prog()));
+                    pf.push(format!("output {:?}, expected {:?} :: {} :: {}", t.out, o, j.sched.describe(), prog()));
                 }
             }
             if let Some(hc) = &j.expect.host_calls {
                 let got: Vec<String> =
                     t.host_calls.iter().filter(|(_, w)| !w.starts_with("print:")).map(|(_, w)| w.clone()).collect();
                 if *hc != got {
-                    ctx.spec_fail(format!("host saw {:?}, the program calls {:?} :: {} :: {}", got, hc, j.sched.describe(), prog()));
+                    pf.push(format!("host saw {:?}, the program calls {:?} :: {} :: {}", got, hc, j.sched.describe(), prog()));
                 }
                 for (n, w) in &t.host_calls {
                     let name = names.get(*n as usize).copied().unwrap_or("?");
                     if !w.starts_with("print:") && !w.starts_with(name) {
-                        ctx.spec_fail(format!("host function number {n} is {name} but serviced as {w} :: {}", prog()));
+                        pf.push(format!("host function number {n} is {name} but serviced as {w} :: {}", prog()));
                     }
                     ctx.count(&format!("hostcall:{name}"));
                 }
             }
         }
+        if pf.len() > 3 {
+            let more = pf.len() - 3;
+            pf.truncate(3);
+            pf.push(format!("(… {more} more failures of the same program omitted)"));
+        }
+        for f in pf {
+            ctx.spec_fail(f);
+        }
         // ---- against the model
-        if t.total_steps <= 2500 {
+        if t.total_steps <= 2500 && t.calls.len() <= 1500 {
             let (req, ans) = trace_case(&t);
             ctx.case(format!("{req} #{}", j.sched.describe()), ans);
         }
